@@ -348,6 +348,142 @@ fn size_accounting(ctx: &Ctx, n: u64) -> SubReport {
     )
 }
 
+/// run() against stepping on registries other than the default one: an instruction set that was
+/// never loaded (instruction items are then skipped), and sets holding a handful of instructions
+/// registered through add(). The stepping side builds its InstructionCache from the names it
+/// registered itself (not through InstructionSet::cache). The caller's instruction set must
+/// hold exactly the same names afterwards.
+fn custom_registries(ctx: &Ctx, n: u64) -> SubReport {
+    use pushr::push::instructions::{InstructionCache, InstructionSet};
+    const SOME: [&str; 6] = ["NOOP", "INTEGER.MAX", "INTEGER.DUP", "EXEC.DUP", "CODE.QUOTE", "BOOLEAN.NOT"];
+    fn harness_noop(_s: &mut pushr::push::state::PushState, _c: &InstructionCache) {}
+    fn build_set(k: usize) -> (InstructionSet, Vec<String>) {
+        // k = 0: never loaded, empty; otherwise the first k names of SOME registered through add()
+        use pushr::push::instructions::Instruction;
+        let mut set = InstructionSet::new();
+        let mut names = vec![];
+        for n in SOME.iter().take(k) {
+            let i = match *n {
+                "NOOP" => Instruction::new(harness_noop),
+                "INTEGER.MAX" => Instruction::new(pushr::push::integer::integer_max),
+                "INTEGER.DUP" => Instruction::new(pushr::push::integer::integer_dup),
+                "EXEC.DUP" => Instruction::new(pushr::push::execution::exec_dup),
+                "CODE.QUOTE" => Instruction::new(pushr::push::code::code_quote),
+                _ => Instruction::new(pushr::push::boolean::boolean_not),
+            };
+            set.add(n.to_string(), i);
+            names.push(n.to_string());
+        }
+        (set, names)
+    }
+    run_sharded(
+        ctx,
+        "custom-registries",
+        n,
+        || {
+            let names: Vec<String> = ["NOOP", "INTEGER.MAX", "INTEGER.DUP", "EXEC.DUP", "CODE.QUOTE", "BOOLEAN.NOT", "INTEGER.-", "EXEC.POP", "CODE.DUP", "FLOAT.+"].iter().map(|s| s.to_string()).collect();
+            let kinds = gen::AtomKinds { vectors: false, ..gen::AtomKinds::all(names) };
+            (gen::program(&kinds, 3, 16), 0usize..=6, prop::collection::vec(gen::int_pool(), 0..3))
+        },
+        |(prog, k, ints): &(ItemSpec, usize, Vec<i32>)| {
+            let mut s = StateSpec::default();
+            s.exec = vec![prog.clone()];
+            s.ints = ints.clone();
+            s.config.eval_push_limit = 300;
+            s.config.growth_cap = 100_000;
+            s.config.eval_time_limit = u64::MAX / 4;
+            crate::supervise::journal_program("C02", &s, 300, "run");
+            // run()
+            let (mut a, _) = s.build();
+            let (mut set_a, names) = build_set(*k);
+            let out = guarded(|| PushInterpreter::run(&mut a, &mut set_a)).map_err(|(l, m)| Fail::new(format!("C02/run/panic@{}", l), m))?;
+            let mut after_names: Vec<String> = set_a.cache().list.clone();
+            after_names.sort();
+            let mut want_names = names.clone();
+            want_names.sort();
+            if after_names != want_names {
+                return Err(Fail::new("C02/run-changes-the-instruction-set", format!("the caller's instruction set held {:?} before run() and {} names afterwards", want_names, after_names.len())));
+            }
+            // stepping
+            let mut d = s.clone();
+            let mut code = d.exec.clone();
+            code.extend(d.code.iter().cloned());
+            d.code = code;
+            let (mut b, _) = d.build();
+            let (mut set_b, names_b) = build_set(*k);
+            let cache = InstructionCache::new(names_b);
+            let mut steps = 0;
+            let mut finished = false;
+            while steps <= 301 {
+                let fin = guarded(|| PushInterpreter::step(&mut b, &mut set_b, &cache)).map_err(|(l, m)| Fail::new(format!("C02/step/panic@{}", l), m))?;
+                if fin {
+                    finished = true;
+                    break;
+                }
+                steps += 1;
+            }
+            if finished {
+                if out != PushInterpreterState::NoErrors {
+                    return Err(Fail::new("C02/custom-registry/outcome", format!("stepping ends after {} steps but run() returned {:?} | registry {:?} | {}", steps, out, names, prog.render())));
+                }
+                let (sa, sb) = (StateSpec::snapshot(&a), StateSpec::snapshot(&b));
+                if let Some(dif) = sb.diff(&sa) {
+                    return Err(Fail::new("C02/custom-registry/final-state-differs-from-stepping", format!("{} | registry {:?} | {}", dif, names, prog.render())));
+                }
+            }
+            let mut h = Fnv::new();
+            h.u64(s.digest());
+            h.u64(*k as u64);
+            Ok(CaseOut::new(finished && steps >= 5, h.0).class(format!("registry-of-{}", k)))
+        },
+        |(prog, k, ints)| json!({"program": prog.to_json(), "registry_size": k, "ints": ints, "text": prog.render()}),
+    )
+}
+
+/// The command-line front end's top-level run: its first trace line must show the CODE stack
+/// holding the program exactly as the EXEC stack does (the copy preserves the order), also for
+/// texts with several top-level items.
+fn cli_copy(ctx: &Ctx) -> SubReport {
+    let mut rep = SubReport::new("command-line-copy-to-code");
+    let bin = match std::env::var("PV_PUSHR_CLI") {
+        Ok(b) if std::path::Path::new(&b).exists() => b,
+        _ => {
+            rep.inconclusive.push("pushr CLI binary not available (PV_PUSHR_CLI)".into());
+            return rep;
+        }
+    };
+    let texts = [
+        "1", "( 1 2 )", "1 2", "1 2 3", "( 1 2 ) ( 3 ) 4", "TRUE ( FALSE ) 2.5 foo", "( ( 1 ) ( 2 ( 3 ) ) ) bar ( )", "1 2 3 4 5 6 7 8 9 10 11 12",
+        "a b c d ( e f ) g", "( NOOP ) NOOP ( NOOP NOOP )", "INT[1,2] BOOL[1] 7", "( ) ( ) ( )",
+    ];
+    for t in texts.iter() {
+        rep.evaluations += 1;
+        let out = match std::process::Command::new(&bin).arg(t).output() {
+            Ok(o) => o,
+            Err(e) => {
+                rep.inconclusive.push(format!("cannot spawn the CLI: {}", e));
+                return rep;
+            }
+        };
+        let so = String::from_utf8_lossy(&out.stdout).to_string();
+        let first = |p: &str| so.lines().find_map(|l| l.strip_prefix(p).map(|x| x.trim().to_string()));
+        let (e, c) = (first("> EXEC  :"), first("> CODE  :"));
+        let case = json!({"program_text": t});
+        match (e, c) {
+            (Some(e), Some(c)) => {
+                if e != c {
+                    rep.fail(ctx, Fail::new("C02/cli/copy-does-not-preserve-the-program", format!("text {:?}: before the first step EXEC is {:?} but CODE is {:?}", t, e, c)), case);
+                } else {
+                    rep.nontrivial.insert(hash_str(t));
+                    rep.sample(case);
+                }
+            }
+            _ => rep.fail(ctx, Fail::new("C02/cli/no-trace", format!("text {:?}: the front end printed no EXEC / CODE trace line (exit {:?})", t, out.status.code())), case),
+        }
+    }
+    rep
+}
+
 /// A single slow step (a harness instruction registered through InstructionSet::add that sleeps
 /// 40 ms) overruns a 5 ms limit while items remain on EXEC: the run must stop with
 /// TimeLimitExceeded (the limit has passed and the program is not finished), whatever the
@@ -403,6 +539,8 @@ pub fn run(ctx: &Ctx) -> PropReport {
     rep.push(size_accounting(ctx, ctx.tier.pick(20_000, 200_000)));
     rep.push(time_limit(ctx));
     rep.push(slow_step(ctx));
+    rep.push(custom_registries(ctx, ctx.tier.pick(20_000, 300_000)));
+    rep.push(cli_copy(ctx));
     rep
 }
 
